@@ -32,10 +32,12 @@ pub struct EnumInfo {
     pub mask_all: Option<fn() -> u32>,
     /// masks: from_name
     pub mask_from_name: Option<fn(&str) -> Option<u32>>,
+    /// Operand::from(payload) equals the variant and unwrap_* returns the payload
+    pub from_unwrap: Option<fn(u32) -> Option<bool>>,
 }
 
 macro_rules! value_enum {
-    ($t:ident, $dec:ident) => {
+    ($t:ident, $dec:ident, $unw:ident) => {
         EnumInfo {
             name: stringify!($t),
             is_mask: false,
@@ -53,6 +55,11 @@ macro_rules! value_enum {
             mask_names: None,
             mask_all: None,
             mask_from_name: None,
+            from_unwrap: Some(|n| {
+                let v = spirv::$t::from_u32(n)?;
+                let o: Operand = v.into();
+                Some(o == Operand::$t(v) && o.$unw() == v)
+            }),
         }
     };
 }
@@ -73,12 +80,13 @@ macro_rules! bare_enum {
             mask_names: None,
             mask_all: None,
             mask_from_name: None,
+            from_unwrap: None,
         }
     };
 }
 
 macro_rules! mask_enum {
-    ($t:ident, $dec:ident) => {
+    ($t:ident, $dec:ident, $unw:ident) => {
         EnumInfo {
             name: stringify!($t),
             is_mask: true,
@@ -101,83 +109,76 @@ macro_rules! mask_enum {
             }),
             mask_all: Some(|| spirv::$t::all().bits()),
             mask_from_name: Some(|s| spirv::$t::from_name(s).map(|v| v.bits())),
+            from_unwrap: Some(|n| {
+                let v = spirv::$t::from_bits(n)?;
+                let o: Operand = v.into();
+                Some(o == Operand::$t(v) && o.$unw() == v)
+            }),
         }
     };
 }
 
 pub static ENUMS: &[EnumInfo] = &[
-    value_enum!(SourceLanguage, source_language),
-    value_enum!(ExecutionModel, execution_model),
-    value_enum!(AddressingModel, addressing_model),
-    value_enum!(MemoryModel, memory_model),
-    value_enum!(ExecutionMode, execution_mode),
-    value_enum!(StorageClass, storage_class),
-    value_enum!(Dim, dim),
-    value_enum!(SamplerAddressingMode, sampler_addressing_mode),
-    value_enum!(SamplerFilterMode, sampler_filter_mode),
-    value_enum!(ImageFormat, image_format),
-    value_enum!(ImageChannelOrder, image_channel_order),
-    value_enum!(ImageChannelDataType, image_channel_data_type),
-    value_enum!(FPRoundingMode, fp_rounding_mode),
-    value_enum!(FPDenormMode, fp_denorm_mode),
-    value_enum!(QuantizationModes, quantization_modes),
-    value_enum!(FPOperationMode, fp_operation_mode),
-    value_enum!(OverflowModes, overflow_modes),
-    value_enum!(LinkageType, linkage_type),
-    value_enum!(AccessQualifier, access_qualifier),
-    value_enum!(HostAccessQualifier, host_access_qualifier),
-    value_enum!(FunctionParameterAttribute, function_parameter_attribute),
-    value_enum!(Decoration, decoration),
-    value_enum!(BuiltIn, built_in),
-    value_enum!(Scope, scope),
-    value_enum!(GroupOperation, group_operation),
-    value_enum!(KernelEnqueueFlags, kernel_enqueue_flags),
-    value_enum!(Capability, capability),
-    value_enum!(RayQueryIntersection, ray_query_intersection),
-    value_enum!(
-        RayQueryCommittedIntersectionType,
-        ray_query_committed_intersection_type
-    ),
-    value_enum!(
-        RayQueryCandidateIntersectionType,
-        ray_query_candidate_intersection_type
-    ),
-    value_enum!(PackedVectorFormat, packed_vector_format),
-    value_enum!(CooperativeMatrixLayout, cooperative_matrix_layout),
-    value_enum!(CooperativeMatrixUse, cooperative_matrix_use),
-    value_enum!(TensorClampMode, tensor_clamp_mode),
-    value_enum!(InitializationModeQualifier, initialization_mode_qualifier),
-    value_enum!(LoadCacheControl, load_cache_control),
-    value_enum!(StoreCacheControl, store_cache_control),
-    value_enum!(
-        NamedMaximumNumberOfRegisters,
-        named_maximum_number_of_registers
-    ),
-    value_enum!(FPEncoding, fp_encoding),
-    value_enum!(CooperativeVectorMatrixLayout, cooperative_vector_matrix_layout),
-    value_enum!(ComponentType, component_type),
+    value_enum!(SourceLanguage, source_language, unwrap_source_language),
+    value_enum!(ExecutionModel, execution_model, unwrap_execution_model),
+    value_enum!(AddressingModel, addressing_model, unwrap_addressing_model),
+    value_enum!(MemoryModel, memory_model, unwrap_memory_model),
+    value_enum!(ExecutionMode, execution_mode, unwrap_execution_mode),
+    value_enum!(StorageClass, storage_class, unwrap_storage_class),
+    value_enum!(Dim, dim, unwrap_dim),
+    value_enum!(SamplerAddressingMode, sampler_addressing_mode, unwrap_sampler_addressing_mode),
+    value_enum!(SamplerFilterMode, sampler_filter_mode, unwrap_sampler_filter_mode),
+    value_enum!(ImageFormat, image_format, unwrap_image_format),
+    value_enum!(ImageChannelOrder, image_channel_order, unwrap_image_channel_order),
+    value_enum!(ImageChannelDataType, image_channel_data_type, unwrap_image_channel_data_type),
+    value_enum!(FPRoundingMode, fp_rounding_mode, unwrap_fp_rounding_mode),
+    value_enum!(FPDenormMode, fp_denorm_mode, unwrap_fp_denorm_mode),
+    value_enum!(QuantizationModes, quantization_modes, unwrap_quantization_modes),
+    value_enum!(FPOperationMode, fp_operation_mode, unwrap_fp_operation_mode),
+    value_enum!(OverflowModes, overflow_modes, unwrap_overflow_modes),
+    value_enum!(LinkageType, linkage_type, unwrap_linkage_type),
+    value_enum!(AccessQualifier, access_qualifier, unwrap_access_qualifier),
+    value_enum!(HostAccessQualifier, host_access_qualifier, unwrap_host_access_qualifier),
+    value_enum!(FunctionParameterAttribute, function_parameter_attribute, unwrap_function_parameter_attribute),
+    value_enum!(Decoration, decoration, unwrap_decoration),
+    value_enum!(BuiltIn, built_in, unwrap_built_in),
+    value_enum!(Scope, scope, unwrap_scope),
+    value_enum!(GroupOperation, group_operation, unwrap_group_operation),
+    value_enum!(KernelEnqueueFlags, kernel_enqueue_flags, unwrap_kernel_enqueue_flags),
+    value_enum!(Capability, capability, unwrap_capability),
+    value_enum!(RayQueryIntersection, ray_query_intersection, unwrap_ray_query_intersection),
+    value_enum!(RayQueryCommittedIntersectionType, ray_query_committed_intersection_type, unwrap_ray_query_committed_intersection_type),
+    value_enum!(RayQueryCandidateIntersectionType, ray_query_candidate_intersection_type, unwrap_ray_query_candidate_intersection_type),
+    value_enum!(PackedVectorFormat, packed_vector_format, unwrap_packed_vector_format),
+    value_enum!(CooperativeMatrixLayout, cooperative_matrix_layout, unwrap_cooperative_matrix_layout),
+    value_enum!(CooperativeMatrixUse, cooperative_matrix_use, unwrap_cooperative_matrix_use),
+    value_enum!(TensorClampMode, tensor_clamp_mode, unwrap_tensor_clamp_mode),
+    value_enum!(InitializationModeQualifier, initialization_mode_qualifier, unwrap_initialization_mode_qualifier),
+    value_enum!(LoadCacheControl, load_cache_control, unwrap_load_cache_control),
+    value_enum!(StoreCacheControl, store_cache_control, unwrap_store_cache_control),
+    value_enum!(NamedMaximumNumberOfRegisters, named_maximum_number_of_registers, unwrap_named_maximum_number_of_registers),
+    value_enum!(FPEncoding, fp_encoding, unwrap_fp_encoding),
+    value_enum!(CooperativeVectorMatrixLayout, cooperative_vector_matrix_layout, unwrap_cooperative_vector_matrix_layout),
+    value_enum!(ComponentType, component_type, unwrap_component_type),
     bare_enum!(Op),
     bare_enum!(GLOp),
     bare_enum!(CLOp),
     bare_enum!(DebugPrintFOp),
-    mask_enum!(ImageOperands, image_operands),
-    mask_enum!(FPFastMathMode, fp_fast_math_mode),
-    mask_enum!(SelectionControl, selection_control),
-    mask_enum!(LoopControl, loop_control),
-    mask_enum!(FunctionControl, function_control),
-    mask_enum!(MemorySemantics, memory_semantics),
-    mask_enum!(MemoryAccess, memory_access),
-    mask_enum!(KernelProfilingInfo, kernel_profiling_info),
-    mask_enum!(RayFlags, ray_flags),
-    mask_enum!(FragmentShadingRate, fragment_shading_rate),
-    mask_enum!(RawAccessChainOperands, raw_access_chain_operands),
-    mask_enum!(CooperativeMatrixOperands, cooperative_matrix_operands),
-    mask_enum!(CooperativeMatrixReduce, cooperative_matrix_reduce),
-    mask_enum!(TensorAddressingOperands, tensor_addressing_operands),
-    mask_enum!(
-        MatrixMultiplyAccumulateOperands,
-        matrix_multiply_accumulate_operands
-    ),
+    mask_enum!(ImageOperands, image_operands, unwrap_image_operands),
+    mask_enum!(FPFastMathMode, fp_fast_math_mode, unwrap_fp_fast_math_mode),
+    mask_enum!(SelectionControl, selection_control, unwrap_selection_control),
+    mask_enum!(LoopControl, loop_control, unwrap_loop_control),
+    mask_enum!(FunctionControl, function_control, unwrap_function_control),
+    mask_enum!(MemorySemantics, memory_semantics, unwrap_memory_semantics),
+    mask_enum!(MemoryAccess, memory_access, unwrap_memory_access),
+    mask_enum!(KernelProfilingInfo, kernel_profiling_info, unwrap_kernel_profiling_info),
+    mask_enum!(RayFlags, ray_flags, unwrap_ray_flags),
+    mask_enum!(FragmentShadingRate, fragment_shading_rate, unwrap_fragment_shading_rate),
+    mask_enum!(RawAccessChainOperands, raw_access_chain_operands, unwrap_raw_access_chain_operands),
+    mask_enum!(CooperativeMatrixOperands, cooperative_matrix_operands, unwrap_cooperative_matrix_operands),
+    mask_enum!(CooperativeMatrixReduce, cooperative_matrix_reduce, unwrap_cooperative_matrix_reduce),
+    mask_enum!(TensorAddressingOperands, tensor_addressing_operands, unwrap_tensor_addressing_operands),
+    mask_enum!(MatrixMultiplyAccumulateOperands, matrix_multiply_accumulate_operands, unwrap_matrix_multiply_accumulate_operands),
 ];
 
 pub fn by_name(name: &str) -> Option<&'static EnumInfo> {
